@@ -10,7 +10,6 @@ sys.path.insert(0, os.path.join(os.path.dirname(os.path.abspath(__file__)), ".."
 import vf
 
 KIND_CODE = {"t": 12, "u": 7, "d": 15}      # uv_handle_type: UV_TCP, UV_NAMED_PIPE, UV_UDP
-K_TRY = "try_write2_send_handle_unchecked"
 K_STALL = "accept_failure_stalls_server"
 K_LOST = "pipe_connect_overwrites_pending_request"
 
@@ -512,15 +511,14 @@ def write_monitor(case, out):
         if not ipc:
             why = "%s accepted a send handle on a %s stream (returned %d, %d descriptors reached the peer)" \
                   % (what, "tcp" if st == "T" else "non-ipc pipe", ret, nf)
-            return (K_TRY, why) if api == "y" else (None, why)
+            return None, why       # was the known finding try_write2_send_handle_unchecked until /repo c5357ca
         if hk in "TUmc":
             return None, "%s accepted a send handle without descriptor (returned %d)" % (what, ret)
         if sta == "w" and nf != 1:
             return None, "%s returned %d but %d descriptors reached the peer" % (what, ret, nf)
     if sta == "w":
         if not ipc and ret != -22:
-            why = "%s with a send handle on a non-ipc stream returned %d, not UV_EINVAL" % (what, ret)
-            return (K_TRY, why) if api == "y" else (None, why)
+            return None, "%s with a send handle on a non-ipc stream returned %d, not UV_EINVAL" % (what, ret)
         if ipc and hk in "TUmc" and ret != -9:
             return None, "%s with a handle without descriptor returned %d, not UV_EBADF" % (what, ret)
     return None
@@ -580,14 +578,8 @@ def run_mode(chk, name, harness_cmd, model_cmd, cases, model_input, monitor, fir
         except (ValueError, IndexError) as e:
             verdict = (None, "trace not parseable by the monitor (%s)" % e)
         it, mt = vf.canon(impl_trace), vf.canon(bl)
-        if first_tok_only:
-            # the model prints the pinned tree's answer first and, for uv_try_write2, the answer of the
-            # variant with notes/C07_fix_try_write2.diff applied ("F<ret>"): either variant is a model
-            both = mt.split()
-            it, mt = it.split()[0], both[0]
-            if it != mt and len(both) > 1 and it == "w" + both[1][1:]:
-                chk.cov["try_write2_fixed_variant_cases"] = chk.cov.get("try_write2_fixed_variant_cases", 0) + 1
-                mt = it
+        if first_tok_only:      # the model prints the current code's answer first ("H..." = before c5357ca)
+            it, mt = it.split()[0], mt.split()[0]
         if it != mt:
             chk.cov["disagreements_checked"] += 1
             nbad += 1
